@@ -68,6 +68,11 @@ def run(ctx):
                 ctx.violation("h_gadget seq %s died rc=%s %s" % (kind, rc, err[-200:]), key="h_gadget seq crash %s" % kind)
             else:
                 out.write(open(part).read())
+            rc, err = table.run_harness(ctx, exe, ["conc", "--ls", ",".join(str(l) for l, _ in LAYOUTS[:8]), "--bgs", ",".join(str(b) for _, b in LAYOUTS[:8]), "--seed", ctx.seed + 11, "--rand", 32], part)
+            if rc != 0:
+                ctx.violation("h_gadget conc %s died rc=%s %s" % (kind, rc, err[-200:]), key="h_gadget conc crash %s" % kind)
+            else:
+                out.write(open(part).read())
         bad = table.validate_rows(ctx, "Table_C12", f, what="C12 edges %s" % kind, timeout=3000)
         if bad:
             ctx.violation("decomposition violates balance/recomposition/input-restoration at full width (%s build): row %s" % (kind, bad["row"]), detail=bad, files=[f])
